@@ -19,7 +19,7 @@ PROP = {
                 "3": "whitelist: announce accepted although not listed, or rejected although listed",
                 "4": "blacklist: announce rejected although not listed, or accepted although listed",
                 "5": "no list configured but the announce was rejected",
-                "6": "a scrape was blocked (wholly: an error; or in part: infohashes removed from the scrape request)",
+                "6": "a scrape was blocked (wholly: an error or a crash of the hook; or in part: infohashes removed from the scrape request)",
                 "7": "NewHook crashed instead of returning an error",
                 "100": "announce verdict differs from model",
                 "102": "rejection is not the package's Err...Unapproved client error", "103": "hook modified the context, request or response"},
